@@ -12,9 +12,9 @@ pub const SIGMA: [&str; 16] = [
     "a", "n", " ", "\"", "\\", "#", "=", ":", "$", "{", "%", "\t", "\n", "é",
 ];
 
-const LABELS: [Option<&str>; 4] = [None, Some(":l"), Some(":a.b"), Some(":é_1")];
+const LABELS: [Option<&str>; 5] = [None, Some(":l"), Some(":a.b"), Some(":é_1"), Some(":m=f")];
 const OUTPUTS: [Option<&str>; 4] = [None, Some("x"), Some("scope::y"), Some("out-1.é")];
-const COMMANDS: [Option<&str>; 4] = [None, Some("cmd"), Some("ns::Cmd"), Some("é_2")];
+const COMMANDS: [Option<&str>; 5] = [None, Some("cmd"), Some("ns::Cmd"), Some("é_2"), Some("k=v")];
 const LEADS: [&str; 3] = ["", "  ", "\t "];
 const TRAILS: [&str; 6] = ["", " ", " \t", " # c", "   #c \"x", "  # \\q"];
 
@@ -222,6 +222,9 @@ pub fn worker(w: &mut Worker) {
                 for args in &pool {
                     if c.is_none() && !args.is_empty() {
                         continue;
+                    }
+                    if c.map(|x| x.contains('=')).unwrap_or(false) && o.is_none() {
+                        continue; // `k=v` without an output variable is the assignment form `k = v`
                     }
                     let i = Instr {
                         label: l.map(String::from),
